@@ -18,11 +18,11 @@ Section Fuel.
   Proof.
     intros st s st' r H. unfold Newick.step in H.
     destruct (scan_iw numeric s) as [[[tok lit] r0] pre] eqn:E.
-    pose proof (scan_iw_spec _ _ _ _ _ _ E) as [_ [_ Hws]].
     destruct tok; try congruence;
       try (pose proof (scan_iw_length _ _ _ _ _ _ E ltac:(discriminate)) as Hlen).
     - (* ILLEGAL *) inversion H; subst; assumption.
     - (* EOF *) repeat break_match_hyp; discriminate.
+    - (* WS *) inversion H; subst; assumption.
     - (* IDENT *)
       unfold with_num in H.
       repeat break_match_hyp; try discriminate; inversion H; subst; assumption.
@@ -93,11 +93,11 @@ Section Fuel.
     apply parse_iter_mono; [reflexivity|]. apply parse_iter_no_fuel. lia.
   Qed.
 
-  Theorem parse_no_fuel : forall s, parse numeric parse_num s <> POutOfFuel.
+  Theorem parse_raw_no_fuel : forall s, parse_raw numeric parse_num s <> POutOfFuel.
   Proof.
-    intros s. unfold parse, parse_fuel.
+    intros s. unfold parse_raw, parse_fuel.
     destruct (scan_iw numeric s) as [[[tok lit] r] pre] eqn:E.
-    pose proof (scan_iw_spec _ _ _ _ _ _ E) as [Hs [Hpre _]].
+    pose proof (scan_iw_spec _ _ _ _ _ _ E) as [Hs Hpre].
     assert (Hiter : forall pre1, String.length pre1 <= String.length s ->
               match parse_iter (S (String.length s)) st0 pre1 with
               | IErr m => PErr m
@@ -122,9 +122,12 @@ Section Fuel.
     - destruct (scan_iw numeric r') as [[[tok2 lit2] r2] pre2] eqn:E2.
       destruct (negb (token_eqb tok2 OPENPAR)); [discriminate|]. apply Hiter.
       pose proof (consume_length _ _ _ _ _ _ Ec).
-      pose proof (scan_iw_spec _ _ _ _ _ _ E2) as [_ [Hp2 _]].
+      pose proof (scan_iw_spec _ _ _ _ _ _ E2) as [_ Hp2].
       pose proof (scan_length_le _ _ _ _ _ _ Hs). lia.
     - discriminate.
     - exfalso. eapply consume_no_fuel; [|exact Ec]. lia.
   Qed.
+
+  Theorem parse_no_fuel : forall s, parse numeric parse_num s <> POutOfFuel.
+  Proof. intros s. unfold parse. apply parse_raw_no_fuel. Qed.
 End Fuel.
